@@ -1660,6 +1660,7 @@ impl Vm {
         }
 
         created_upvalue.borrow_mut().next = upvalue;
+        created_upvalue.borrow_mut().fiber = self.fiber.as_ref().map(|f| f.as_gc());
         created_upvalue.as_gc()
     }
 
